@@ -109,6 +109,7 @@ class Collector:
         self.known = known
         self.evaluations = 0
         self.nt = set()
+        self.swept = set()
         self.nt_enum = 0  # distinct by construction (enumerated domains)
         self.classes = collections.Counter()
         self.samples = []
@@ -130,6 +131,12 @@ class Collector:
         if out.nt or out.nt_n:
             if distinct_by_construction:
                 self.nt_enum += out.nt_n if out.nt_n is not None else 1
+            elif out.nt_n is not None:
+                # a generated case that sweeps a sub-domain: its non-trivial members count once per distinct case
+                dg = digest(case)
+                if dg not in self.swept:
+                    self.swept.add(dg)
+                    self.nt_enum += out.nt_n
             else:
                 self.nt.add(digest(case))
             if len(self.samples) < self.MAX_SAMPLES:
